@@ -183,6 +183,7 @@ def run(ctx):
             if back.shape != tris.shape or not np.array_equal(back, tris):
                 ctx.violation('PLY triangle set (%d triangles) does not read back identically' % k, {'triangles': k}, {'fn': 'write_PLY', 'what': 'roundtrip'})
         ply_points_cases(ctx, tmp)
+        from .genply import check_generated_ply; check_generated_ply(ctx, tmp)   # Generated/PlyGen.lean (PLY index arithmetic, reader, file-helper wiring) vs the real functions
         image_range_cases(ctx, tmp)
         tensor_layout_cases(ctx, tmp)
         loaded_values_stay(ctx, tmp)
